@@ -334,7 +334,10 @@ def run_sharded(pid, tier, seed, nshards, shard_timeout):
                     parent.merge_fragment(json.load(fh))
             else:
                 log.seek(0)
-                tail = log.read()[-1500:]
+                tail = '\n'.join(
+                    ln for ln in log.read().split('\n')
+                    if 'DeprecationWarning' not in ln
+                    and 'cipher = Cipher(' not in ln)[-1500:]
                 parent.inconclusive_because(
                     'shard %d died (exit %s): %s' % (i, p.returncode, tail))
     finally:
